@@ -195,6 +195,7 @@ type mwConn struct {
 	lis      *countingListener
 	handed   bool // passed to addNewMux
 	lateAdd  bool // ... after the lifetime had ended
+	peerReady    chan struct{} // closed once m.peer is set (the harness session answers pings before startPeer has returned)
 	dieBeforeAdd bool // the peer answers the first ping and hangs up before addNewMux looks at the session
 	hiccup       bool // the link stalls for 11 s right after the provider's handshake ping was answered: the session's first health-check ping times out, the session survives
 	muxID    string
@@ -271,6 +272,12 @@ func newMuxWorld(t *testing.T, n int, role string, tcp, bubble, withGRPC bool) *
 		wrapped := func(s *yamux.Session, c net.Conn) {
 			m := w.lookup(c)
 			late := lt.Err() != nil
+			if m != nil && m.dieBeforeAdd {
+				select { // the harness session may have answered the ping before startPeer stored it
+				case <-m.peerReady:
+				case <-time.After(10 * time.Second):
+				}
+			}
 			if m != nil && m.dieBeforeAdd && m.peer != nil {
 				// the narrow window between the provider's successful Ping and AddConnection: the peer is gone already
 				m.harnShut = true
@@ -475,7 +482,7 @@ func (w *muxWorld) observe() string { return w.rawObserve() }
 
 // connOK hands the provider a fresh connection (pipe mode) / dials the listener (tcp mode).
 func (w *muxWorld) connOK(sessFail bool) {
-	m := &mwConn{cid: len(w.conns), sessFail: sessFail}
+	m := &mwConn{cid: len(w.conns), sessFail: sessFail, peerReady: make(chan struct{})}
 	if w.tcp {
 		c, err := net.DialTimeout("tcp", w.addr, 3*time.Second)
 		if err != nil {
@@ -519,6 +526,13 @@ func (w *muxWorld) startPeer(m *mwConn) {
 	}
 	if err != nil {
 		w.t.Fatal(err)
+	}
+	if m.peerReady != nil {
+		select {
+		case <-m.peerReady:
+		default:
+			close(m.peerReady)
+		}
 	}
 	if w.withGRPC {
 		m.lis = &countingListener{Listener: m.peer}
